@@ -37,7 +37,7 @@ def build_reach(ctx):
 # ---------------------------------------------------------------------------
 # symbolic path conditions of a small acyclic region
 
-def path_conditions(body, target_bb, max_paths=4000, sym_bb=None, ret_local=None):
+def path_conditions(body, target_bb, max_paths=4000, sym_bb=None, ret_local=None, watch=()):
     """Enumerate decision paths from the entry to `target_bb` with constant
     propagation of bool locals along the path; in a body with loops the paths
     of one iteration (back edges are not followed).  Returns a list of dicts
@@ -68,6 +68,21 @@ def path_conditions(body, target_bb, max_paths=4000, sym_bb=None, ret_local=None
                     return ("const", op.get("bits", op["val"]))
                 if not op["pl"]["p"]:
                     return sym_of_local(op["pl"]["l"], env)
+                pr = op["pl"]["p"]
+                if len(pr) == 1 and isinstance(pr[0], dict) and "f" in pr[0]:
+                    # field of an aggregate built on this path
+                    base = env.get(op["pl"]["l"])
+                    if base is None:
+                        d2 = defs.unique_full(op["pl"]["l"])
+                        if d2 and d2[0] == "stmt" and d2[3]["rv"]["k"] == "agg":
+                            base = ("agg", d2[1], d2[2])
+                    if base and base[0] == "agg":
+                        ops_ = body.blocks[base[1]]["stmts"][base[2]]["rv"]["ops"]
+                        if pr[0]["f"] < len(ops_):
+                            o2 = ops_[pr[0]["f"]]
+                            if o2["k"] == "const":
+                                return ("const", o2.get("bits", o2["val"]))
+                            return ("opnd", base[1], base[2], pr[0]["f"])
                 return ("read", fmt_expr(expr_operand(body, op), None))
             if rv["k"] == "discr":
                 return ("discr", fmt_expr(expr_place(body, rv["pl"]), None))
@@ -82,7 +97,7 @@ def path_conditions(body, target_bb, max_paths=4000, sym_bb=None, ret_local=None
             return
         blk = body.blocks[bb]
         if bb == target_bb:
-            d_ = dict(dec)
+            d_ = {k: v for k, v in dec.items() if not (isinstance(k, tuple) and k and k[0] == "$excl")}
             if ret_local is not None:
                 env2 = dict(env)
                 for s in blk["stmts"]:
@@ -93,6 +108,19 @@ def path_conditions(body, target_bb, max_paths=4000, sym_bb=None, ret_local=None
                         elif rv["k"] == "use" and not rv["op"]["pl"]["p"]:
                             env2[ret_local] = sym_of_local(rv["op"]["pl"]["l"], env2)
                 d_["$ret"] = sym_of_local(ret_local, env2)
+            if watch:
+                env3 = dict(env)
+                for s in blk["stmts"]:
+                    if s["k"] == "assign" and not s["pl"]["p"] and len(defs.of(s["pl"]["l"])) > 1:
+                        rv = s["rv"]
+                        if rv["k"] == "use" and rv["op"]["k"] == "const":
+                            env3[s["pl"]["l"]] = ("const", rv["op"].get("bits", rv["op"]["val"]))
+                        elif rv["k"] == "use" and not rv["op"]["pl"]["p"]:
+                            env3[s["pl"]["l"]] = sym_of_local(rv["op"]["pl"]["l"], env3)
+                        else:
+                            env3[s["pl"]["l"]] = ("assigned", bb, s["pl"]["l"])
+                for l_ in watch:
+                    d_["$L%d" % l_] = sym_of_local(l_, env3)
             out.append(d_)
             count[0] += 1
             return
@@ -106,8 +134,10 @@ def path_conditions(body, target_bb, max_paths=4000, sym_bb=None, ret_local=None
                         env[l] = ("const", rv["op"].get("bits", rv["op"]["val"]))
                     elif rv["k"] == "use" and not rv["op"]["pl"]["p"]:
                         env[l] = sym_of_local(rv["op"]["pl"]["l"], env)
+                    elif rv["k"] == "agg":
+                        env[l] = ("agg", bb, blk["stmts"].index(s))
                     else:
-                        env[l] = ("assigned", bb)
+                        env[l] = ("assigned", bb, l)
         t = blk["term"]
         if t["k"] == "call" and len(defs.of(t["dest"]["l"])) > 1:
             env[t["dest"]["l"]] = ("call", bb)
@@ -134,8 +164,16 @@ def path_conditions(body, target_bb, max_paths=4000, sym_bb=None, ret_local=None
                         # same symbol decided differently earlier on this path
                         if not (dec[sym] == "otherwise" or v == "otherwise"):
                             continue
+                    ex_ = dec.get(("$excl", sym), frozenset())
+                    if v != "otherwise" and v in ex_:
+                        continue        # an earlier `otherwise` arm already excluded this value
+                    if v == "otherwise" and sym in dec and dec[sym] != "otherwise" and dec[sym] in listed:
+                        continue        # the value decided earlier is one of the listed arms
                     d2 = dict(dec)
-                    d2[sym] = v
+                    if not (v == "otherwise" and sym in dec and dec[sym] != "otherwise"):
+                        d2[sym] = v
+                    if v == "otherwise":
+                        d2[("$excl", sym)] = ex_ | frozenset(listed)
                     if sym_bb is not None:
                         sym_bb.setdefault(sym, set()).add(bb)
                     walk(tb, env, d2)
